@@ -195,7 +195,9 @@ def judge_solution(L, name, r, res, x, LM, g, want_kinds=True, gap=None):
             if r.get('status') == 'Optimal':
                 v, pt = ask(res, 'optimal:' + name, [LM, better], x)
                 if v == 'sat':
-                    res['fails'].append({'ob': 'not-optimal', 'solver': name, 'reported': r['value'], 'status': r.get('status'), 'point': zq.point_json(pt)})
+                    tiny = any(0 < abs(float(c)) < 1e-5 for c in L['obj'])
+                    res['fails'].append({'ob': 'not-optimal', 'solver': name, 'engine': ENGINE.get(name, name), 'reported': r['value'], 'status': r.get('status'),
+                                         'objective_coefficient_below_1e-5': tiny, 'point': zq.point_json(pt)})
         return 'ok'
     kind = r.get('kind')
     if kind == 'Infeasible':
@@ -574,12 +576,12 @@ def replay_work(chunk):
 def family(prop, t, sd):
     if prop == 'C13':
         if t == 'quick':
-            specs = gen.l_exhaustive(cont_only=True)[::2] + gen.l_seeded(21, 3000, cont_only=True, tiny=True, offsets=True)
+            specs = gen.l_exhaustive(cont_only=True)[::2] + gen.l_seeded(21, 3000, cont_only=True, tiny=True, offsets=True, probe=('coef', 'rhs', 'obj', 'off'))
         else:
             specs = gen.l_exhaustive(cont_only=True, level=1) + sum([gen.l_seeded(100 * sd + k, 10000, cont_only=True, tiny=True, offsets=True) for k in range(5)], [])
     elif prop == 'C05':
         if t == 'quick':
-            specs = gen.l_exhaustive()[::5] + gen.l_seeded(31, 3000, offsets=True, satisfy=True) + gen.l_seeded(32, 1500, cont_only=True, offsets=True)
+            specs = gen.l_exhaustive()[::5] + gen.l_seeded(31, 3000, offsets=True, satisfy=True, probe=('off', 'solver')) + gen.l_seeded(32, 1500, cont_only=True, offsets=True, probe=('off', 'solver'))
         else:
             specs = gen.l_exhaustive(level=1)[::3] + sum([gen.l_seeded(200 * sd + k, 10000, offsets=True, satisfy=True, cont_only=(k % 2 == 1)) for k in range(6)], [])
     else:
@@ -653,7 +655,7 @@ def main(prop):
         it = {'lm': lm_}
         if True:
             nfail += 1
-            sig = {'stage': prop, 'obligation': fail['ob'], 'solver': fail.get('solver'), 'kind': fail.get('kind'), 'engine': fail.get('engine'), 'has_free_variable': fail.get('has_free_variable'), 'msg': fail.get('msg'), 'lm': canon(it['lm'])}
+            sig = {'stage': prop, 'obligation': fail['ob'], 'solver': fail.get('solver'), 'kind': fail.get('kind'), 'engine': fail.get('engine'), 'has_free_variable': fail.get('has_free_variable'), 'msg': fail.get('msg'), 'objective_coefficient_below_1e-5': fail.get('objective_coefficient_below_1e-5'), 'lm': canon(it['lm'])}
             if not ok:
                 rep.broken.append({'why': 'counterexample did not reproduce against the real code', 'sig': sig, 'detail': detail})
                 continue
